@@ -36,6 +36,23 @@ def _comparisons(nf, out):
     return out
 
 
+NAME_ACCESS = {"xml_name", "named", "referenced_xml_name", "ok_or", "ok_or_else", "map", "and_then", "as_str", "as_deref", "as_ref", "Some", "Ok", "to_string",
+               "clone", "to_owned", "deref", "borrow"}
+
+
+def _is_name_of(CE, nf, what):
+    """is the value the XML name of the component `what` (a path like `soap_operation.body`): reached from `what` (or its `rust_type`)
+    through accessors of the model only — `xml_name` / `named` / `referenced_xml_name` and Option / Result plumbing —, whichever of
+    them the code spells out (a method of the node, a trait it implements, the type's own accessor)?"""
+    e = CE.expand(nf)
+    names = {str(c_[1]).rsplit("::", 1)[-1] for c_ in og.nf_calls(e)}
+    if not names or not names <= NAME_ACCESS or not names & {"xml_name", "named", "referenced_xml_name"}:
+        return False
+    roots = {og.nf_str(r) for r in og.nf_roots(e) if r[0] not in ("lit", "const")}
+    text = og.nf_str(e)
+    return bool(roots) and (what + ".rust_type" in text or what + ")" in text or text.count(what) > 0) and all(r in what or what.startswith(r) or r.startswith(what.split(".")[0].split("(")[-1]) for r in roots)
+
+
 def rule_absent_is_default(ck, F, CE, rule="R6"):
     """Which operations get envelopes may depend on `style` only in a way that takes an absent attribute for its default: a test
     that compares what was read (None when absent) with the default value itself treats `no style` and `style="document"` differently,
@@ -179,7 +196,8 @@ def run(ck, F):
         at = la[0] if la else {}
         rn = at.get("rename")
         rn_s = og.nf_str(rn[1]) if rn and rn[0] == "hole" else str(rn)
-        ok_rn = "xml_name(soap_operation.body.rust_type)" in rn_s and "to_pascal_case" not in rn_s and "to_snake_case" not in rn_s
+        ok_rn = ("xml_name(soap_operation.body.rust_type)" in rn_s and "to_pascal_case" not in rn_s and "to_snake_case" not in rn_s) or (
+            rn is not None and rn[0] == "hole" and _is_name_of(CE, rn[1], "soap_operation.body"))
         (ck.ok if ok_rn else ck.violation)("R2", f"rename:{tag}", e.site, f"Body member rename = {rn_s[:80]}" + ("" if ok_rn else " — not the body element's XML name"), fn="envelope")
         if has_ns:
             pf = at.get("prefix")
@@ -205,7 +223,8 @@ def run(ck, F):
         at = la[0] if la else {}
         rn = at.get("rename")
         rn_s = og.nf_str(rn[1]) if rn and rn[0] == "hole" else str(rn)
-        ok_rn = f"xml_name(each({HS}).1.rust_type)" in rn_s and "to_pascal_case" not in rn_s
+        ok_rn = (f"xml_name(each({HS}).1.rust_type)" in rn_s and "to_pascal_case" not in rn_s) or (
+            rn is not None and rn[0] == "hole" and _is_name_of(CE, rn[1], f"each({HS}).1"))
         (ck.ok if ok_rn else ck.violation)("R3", f"rename:{tag}", e.site,
                                            f"Header member rename = {rn_s[:90]}" + ("" if ok_rn else " — not the XML name of the element the part refers to "
                                                                                    "(a part named differently from its element is serialized under the wrong name)"), fn="envelope")
